@@ -17,6 +17,8 @@
 #include <Spectra/LinAlg/UpperHessenbergSchur.h>
 #include <Spectra/LinAlg/UpperHessenbergEigen.h>
 #include <Spectra/LinAlg/BKLDLT.h>
+#include <Spectra/LinAlg/Arnoldi.h>
+#include <Spectra/LinAlg/Lanczos.h>
 #include <Spectra/Util/TypeTraits.h>
 #undef private
 #undef protected
@@ -24,6 +26,21 @@
 using namespace Spectra;
 typedef Eigen::MatrixXd Mat;
 typedef Eigen::VectorXd Vec;
+
+// user operator for the Krylov kernels: an explicit sequential double loop (y_i = sum_j A_ij x_j, left to right)
+struct LoopOp
+{
+    typedef double Scalar;
+    Mat A;
+    explicit LoopOp(const Mat& a) : A(a) {}
+    Eigen::Index rows() const { return A.rows(); }
+    Eigen::Index cols() const { return A.cols(); }
+    void perform_op(const double* x, double* y) const
+    {
+        const long n = A.rows();
+        for (long i = 0; i < n; i++) { double acc = A(i, 0) * x[0]; for (long j = 1; j < n; j++) acc = acc + A(i, j) * x[j]; y[i] = acc; }
+    }
+};
 
 struct Reader
 {
@@ -153,6 +170,45 @@ int main()
                 Mat A2 = Y; qr.apply_QY(A2); put(o, A2);
                 Mat A3 = Z; qr.apply_YQ(A3); put(o, A3);
                 Mat A4 = Z; qr.apply_YQt(A4); put(o, A4);
+            }
+            else if (t[0] == "arnoldi" || t[0] == "lanczos")
+            {
+                // <n> <m> <A n*n> <v0 n> <restart k or 0> <shift>
+                Reader r(t, 1); long n = r.integer(), m = r.integer(); Mat A = r.mat(n, n); Vec v0 = r.vec(n);
+                long kk = r.integer(); double shift = r.real();
+                LoopOp op(A); typedef ArnoldiOp<double, LoopOp, IdentityBOp> AOp;
+                Eigen::Index cnt = 0; Eigen::Map<const Vec> mv0(v0.data(), n);
+                auto dump = [&](const Mat& V, const Mat& H, const Vec& f, double beta, long k) { put(o, V); put(o, H); put(o, f); put(o, beta); o << k << ' ' << (long) cnt << ' '; };
+                if (t[0] == "arnoldi")
+                {
+                    Arnoldi<double, AOp> fac(AOp(op, IdentityBOp()), m);
+                    fac.init(mv0, cnt); fac.factorize_from(1, m, cnt);
+                    dump(fac.m_fac_V, fac.m_fac_H, fac.m_fac_f, fac.m_beta, fac.m_k);
+                    if (kk > 0)
+                    {   // one implicit restart with a single real shift repeated (m - kk) times
+                        Mat Q = Mat::Identity(m, m); UpperHessenbergQR<double> qr(m);
+                        for (long i = kk; i < m; i++) { qr.compute(fac.matrix_H(), shift); qr.apply_YQ(Q); fac.compress_H(qr); }
+                        fac.compress_V(Q);
+                        o << "| "; put(o, Mat(fac.m_fac_V.leftCols(kk))); put(o, Mat(fac.m_fac_H.topLeftCorner(kk, kk))); put(o, fac.m_fac_f); put(o, fac.m_beta); o << fac.m_k << ' ';
+                        fac.factorize_from(kk, m, cnt);
+                        o << "| "; dump(fac.m_fac_V, fac.m_fac_H, fac.m_fac_f, fac.m_beta, fac.m_k);
+                    }
+                }
+                else
+                {
+                    Lanczos<double, AOp> fac(AOp(op, IdentityBOp()), m);
+                    fac.init(mv0, cnt); fac.factorize_from(1, m, cnt);
+                    dump(fac.m_fac_V, fac.m_fac_H, fac.m_fac_f, fac.m_beta, fac.m_k);
+                    if (kk > 0)
+                    {
+                        Mat Q = Mat::Identity(m, m); TridiagQR<double> qr(m);
+                        for (long i = kk; i < m; i++) { qr.compute(fac.matrix_H(), shift); qr.apply_YQ(Q); fac.compress_H(qr); }
+                        fac.compress_V(Q);
+                        o << "| "; put(o, Mat(fac.m_fac_V.leftCols(kk))); put(o, Mat(fac.m_fac_H.topLeftCorner(kk, kk))); put(o, fac.m_fac_f); put(o, fac.m_beta); o << fac.m_k << ' ';
+                        fac.factorize_from(kk, m, cnt);
+                        o << "| "; dump(fac.m_fac_V, fac.m_fac_H, fac.m_fac_f, fac.m_beta, fac.m_k);
+                    }
+                }
             }
             else if (t[0] == "pred_hqr" || t[0] == "pred_tqr")
             {
